@@ -132,11 +132,11 @@ def writeTags (o : OutCursor) : List PppoeTag → Out OutCursor
     let o ← o.write t.data                                   -- stream.write(it->data_ptr(), it->data_size())
     writeTags o ts
 
-/-- the payload length `write_serialization` stores: the tags' size, else the inner PDU's size, else unchanged -/
+/-- the payload length `write_serialization` stores: the tags' size, else the inner PDU's size, else 0 -/
 def lengthFor (cx : Ctx) (p : PPPoE) : Nat :=
   if p.tagsSize > 0 then p.tagsSize % 65536
   else if !cx.inners.isEmpty then cx.innerSize % 65536
-  else p.payloadLength
+  else 0
 
 /-- `PPPoE::write_serialization` -/
 def write (cx : Ctx) (p : PPPoE) (region : Bytes) : Out Bytes := do
